@@ -81,6 +81,7 @@ pub fn run_chain<S: Settings>(sc: &J) -> Result<(), String> {
     let settings: S = patched(&sc["settings"])?;
     let dim = sc["dim"].as_u64().unwrap_or(2) as usize;
     let mut logp = TestLogp::new(kind_from_json(&sc["density"]), dim);
+    logp.own_dims_only = sc["own_dims"] == true;
     logp.log_evals = sc["log_evals"].as_bool().unwrap_or(false);
     if let Some(fs) = sc["faults"].as_array() {
         for f in fs {
